@@ -92,7 +92,17 @@ pub fn gen_random(rng: &mut Rng, n: u64, with_faults: bool, gzip: bool, emit: &m
             }
             let c = cap as u64;
             let big = c >= 4096;
-            ops.push(match rng.below(10) {
+            ops.push(match rng.below(11) {
+                10 => {
+                    // write_vectored: two or three slices, now and then an empty one in front
+                    let k = rng.range(2, 3);
+                    let mut ds = vec![];
+                    for j in 0..k {
+                        let n = if j == 0 && rng.chance(1, 4) { 0 } else if big { *rng.pick(&[1u64, 100, c - 1, c + 1]) } else { rng.below(2 * c + 2) };
+                        ds.push(p.take(n));
+                    }
+                    Op::WriteV(ds)
+                }
                 0 | 1 => Op::Flush,
                 2 => Op::Drain(rng.range(1, 2)),
                 3 => Op::Poll(rng.range(1, 3)),
